@@ -11,12 +11,14 @@ COQ_CASE_TY = "RunC17.case"
 CASE_TIMEOUT = 60
 SHARD = 20
 RULE = ("mutable types x values x 1-4 random tree positions replaced by bare summaries via summarize_into (element "
-        "subtrees, chunk parents, zero padding, the contents root) x histories of reads (child views) and mutations on "
+        "subtrees, chunk parents, zero padding, the contents root; every sixth case a wide composite with a right-hand "
+        "subtree two or more levels above its elements summarised) x histories of reads (child views) and mutations on "
         "the partial view; after every command: error class (navigation / index / other) and root + encoding (or error "
         "class) of every held view vs the model; model-free: root unchanged by summarising, and every command either "
         "gives the same result as on the complete tree or fails with a navigation / index error, and at the end every "
         "read path of every held view (len, index, slice, iter, readonly_iter, container iteration, to_obj) gives the "
-        "complete tree's answer or a navigation / index error; "
+        "complete tree's answer or a navigation / index error, and an iterator driven by next() beyond a navigation "
+        "error only ever hands out the element of its position; "
         "non-trivial = >= 1 summarised position that is not the root and >= 2 commands")
 
 
@@ -59,6 +61,13 @@ EXTRA_TYPES = [
 ]
 
 
+# wide composites: a summary can sit two or more levels above the elements, in the middle of an iteration
+_PT = ["cont", [["uint", 8], ["uint", 2]]]
+WIDE_TYPES = [["vec", _PT, 8], ["list", _PT, 16], ["cont", [["uint", 8]] * 8], ["vec", ["bytevec", 48], 9],
+              ["cont", [["uint", 8], _PT, ["uint", 4], ["bitvec", 9], ["uint", 1], ["uint", 1], _PT, ["bool"], ["uint", 2]]],
+              ["list", ["list", ["uint", 8], 4], 12]]
+
+
 def existing_positions(node, max_depth=9):
     """generalized indices of the nodes that really exist in a backing (breadth first)"""
     out, frontier = [], [(1, node)]
@@ -78,12 +87,23 @@ def gen_inputs(ctx):
     types = MUTABLE_TOP + EXTRA_TYPES * 2
     for i in range(n):
         t = types[i % len(types)]
+        wide = i % 6 == 5
+        if wide:
+            t = WIDE_TYPES[(i // 6) % len(WIDE_TYPES)]
         inp = gen_history(rng, t, rng.randrange(2, 14), p_child=0.35)
+        for _ in range(30):
+            if not (wide and t[0] == "list" and len(inp["v"]) < 8):
+                break
+            inp = gen_history(rng, t, rng.randrange(2, 14), p_child=0.35)
         try:
             pos = existing_positions(to_py(inp["t"], inp["v"]).get_backing())
         except Exception:
             pos = []
-        if pos and rng.random() < 0.8:
+        inner = [g for g in pos if g & 1 and g.bit_length() <= max(x.bit_length() for x in pos) - 2] if pos else []
+        if wide and inner and rng.random() < 0.8:
+            # right-hand subtrees well above the elements: a run of elements in the middle / at the end is excluded
+            inp["gs"] = [rng.choice(inner) for _ in range(rng.randrange(1, 3))]
+        elif pos and rng.random() < 0.8:
             inp["gs"] = [rng.choice(pos) for _ in range(rng.randrange(1, 4))]
         else:
             depth = rng.choice([1, 2, 3, 4, 5])
@@ -98,6 +118,34 @@ def gen_inputs(ctx):
         yield inp
 
 
+def stepped(make_iter, conv, n):
+    """drive an iterator by hand and keep calling next() after a navigation / index error: [(call number, value)] of
+    the calls that returned something"""
+    it = make_iter()
+    got = []
+    for call in range(n + 3):
+        try:
+            got.append((call, conv(next(it))))
+        except StopIteration:
+            break
+        except Exception as e:  # noqa
+            if tag3(e) not in ("nav", "index"):
+                return E(tag3(e))
+    return got
+
+
+def stepped_wrong(got, full):
+    """a value handed out by a stepped iterator must be the element at its position: the j-th value returned, or
+    (for an iterator that moves on after a failure) the element of that call number"""
+    if isinstance(got, E) or isinstance(full, E):
+        return False
+    for j, (call, val) in enumerate(got):
+        ok = (j < len(full) and val == full[j]) or (call < len(full) and val == full[call])
+        if not ok:
+            return True
+    return False
+
+
 def read_paths(x, t):
     """every way of reading a view's content (model-free): each must give the complete tree's answer or fail with a
     navigation / index error on a partial tree"""
@@ -109,10 +157,16 @@ def read_paths(x, t):
         out["iter"] = att3(lambda: [conv(z) for z in iter(x)])
         if hasattr(x, "readonly_iter"):
             out["readonly_iter"] = att3(lambda: [conv(z) for z in x.readonly_iter()])
+        n_ = att3(lambda: len(x))
+        if not isinstance(n_, E):
+            out["stepped:iter"] = att3(lambda: stepped(lambda: iter(x), conv, n_))
+            if hasattr(x, "readonly_iter"):
+                out["stepped:readonly_iter"] = att3(lambda: stepped(lambda: x.readonly_iter(), conv, n_))
         out["index"] = att3(lambda: [conv(x[i]) for i in range(len(x))])
         out["slice"] = att3(lambda: [conv(z) for z in x[0:len(x)]])
     elif k == "cont":
         out["iter"] = att3(lambda: [bytes(z.hash_tree_root()) for z in iter(x)])
+        out["stepped:iter"] = att3(lambda: stepped(lambda: iter(x), lambda z: bytes(z.hash_tree_root()), len(t[1])))
         out["fields"] = att3(lambda: [bytes(getattr(x, "f%d" % i).hash_tree_root()) for i in range(len(t[1]))])
     if k is not None and hasattr(x, "to_obj"):
         out["to_obj"] = att3(lambda: json.dumps(x.to_obj(), sort_keys=True, default=str))
@@ -196,6 +250,12 @@ def build(inp):
             rp_, rf_ = read_paths(px, shp.types[j]), read_paths(fx, shf.types[j])
             for name, got in rp_.items():
                 want = rf_.get(name)
+                if name.startswith("stepped:"):
+                    full_seq = rf_.get(name[len("stepped:"):])
+                    if stepped_wrong(got, full_seq) and why is None:
+                        why = ("view %d: %s stepped with next() beyond a navigation error hands out a value that is not "
+                               "the element at that position" % (j, name[len("stepped:"):]))
+                    continue
                 if isinstance(got, E):
                     if got.tag not in ("nav", "index") and not isinstance(want, E) and why is None:
                         why = "view %d: %s fails on the partial tree with a %s error" % (j, name, got.tag)
